@@ -100,6 +100,12 @@ def scalar_pool(rng, dt):
 def gram_extras(rng, node, dt, free):
     """Sometimes surround the Gram pair with further factors: X^H X B, H X^H X, H X X^H B (a product that merely contains
     a Gram pair is in general not even Hermitian)."""
+    if not node.get("same", True) and rng.random() < 0.6:
+        # the second member is an operator of the same kind, dtype and declarations over *other* data (E^T F): same types as a
+        # Gram pair built earlier in the process, but neither Hermitian nor positive semi-definite
+        other = R.reseed(node["arg"])
+        if other is not None:
+            node["other"] = other
     if rng.random() < 0.55:
         return node
     p = R.shape_of(node)[0]
